@@ -7,7 +7,7 @@ Results are printed as JSON."""
 import sys, os, re, json, subprocess, shutil, glob
 ENV = dict(os.environ, GOFLAGS='-mod=mod', GOPROXY='off', GOSUMDB='off', GOTOOLCHAIN='local'); ENV.pop('GOWORK', None)
 def sh(cmd, cwd=None, timeout=3600):
-    r = subprocess.run(cmd, shell=True, cwd=cwd, env=ENV, capture_output=True, text=True, timeout=timeout)
+    r = subprocess.run(cmd, shell=True, cwd=cwd, env=ENV, capture_output=True, text=True, errors='replace', timeout=timeout)
     return r.returncode, r.stdout + r.stderr
 def parse_demo(seed):
     txt = open(os.path.join(seed, 'demo_path.txt')).read()
